@@ -4,7 +4,7 @@
 //	                                                         realise the bit positions chosen by TLC; compares answers + bits
 //	vh-bloom record <seed> <traces> <len> <out.ndjson>      random histories on real filters (real hashers, real sizes)
 //	vh-bloom race <scenarios.ndjson> <iters>                TLC-enumerated concurrent scenarios under the race detector
-//	vh-bloom one <iters> <op>...                            (child of `race`)
+//	vh-bloom batch <iters> <file> <from> <to>               (child of `race`)
 package main
 
 import (
@@ -290,14 +290,15 @@ func describe(op string) string {
 	return op + "()"
 }
 
-func child(iters int, ops []string) {
+// setup creates a fresh filter for one scenario and the factory of goroutine bodies
+func setup(_ int) (interface{}, func(op string, g int) func(i int)) {
 	// small filter so that different keys share bytes (the detector works per byte)
 	f, err := bloom.NewFilter(6, []hashing.Hasher{keccak.NewKeccak(), fnv.NewFnv()})
 	if err != nil {
 		panic(err)
 	}
 	f.Add([]byte("hot"))
-	racerun.Child(ops, iters, func(op string, g int) func(i int) {
+	return f, func(op string, g int) func(i int) {
 		fresh := func(i int) []byte { return []byte(fmt.Sprintf("g%d-%d", g, i)) }
 		switch op {
 		case "Add:hot":
@@ -314,7 +315,7 @@ func child(iters int, ops []string) {
 			return func(i int) { _ = f.IsInterfaceNil() }
 		}
 		return nil
-	})
+	}
 }
 
 func main() {
@@ -340,9 +341,11 @@ func main() {
 		iters, _ := strconv.Atoi(os.Args[3])
 		sort.SliceStable(sc, func(i, j int) bool { return len(sc[i].Ops) < len(sc[j].Ops) })
 		racerun.Drive("C31", os.Args[0], sc, iters, methodRe, describe)
-	case "one":
+	case "batch":
 		iters, _ := strconv.Atoi(os.Args[2])
-		child(iters, os.Args[3:])
+		from, _ := strconv.Atoi(os.Args[4])
+		to, _ := strconv.Atoi(os.Args[5])
+		racerun.ChildBatch(os.Args[3], from, to, iters, setup)
 	default:
 		os.Exit(2)
 	}
